@@ -139,6 +139,15 @@ def check(run: Run) -> None:
         # the reduced list is threaded: keywords = result[1]
         st = stmt_of(c)
         ok_thread = isinstance(st, ast.Assign) and isinstance(st.targets[0], ast.Tuple) and len(st.targets[0].elts) == 2 and isinstance(c.args[0], ast.Name) and isinstance(st.targets[0].elts[1], ast.Name) and st.targets[0].elts[1].id == c.args[0].id
+        if not ok_thread and isinstance(c.args[0], ast.Name) and fa.cfg.has_node(c):
+            # result kept whole, the list taken from it afterwards: found = _find_keyword(keywords, name); keywords = found[1]
+            ct = strip_sites(fa.term_of(c))
+            for n2 in own_nodes(fd):
+                if isinstance(n2, ast.Assign) and len(n2.targets) == 1 and isinstance(n2.targets[0], ast.Name) and n2.targets[0].id == c.args[0].id and fa.cfg.has_node(n2) and fa.cfg.dominates(fa.cfg.node_of(st), fa.cfg.node_of(n2)):
+                    v2 = n2.value
+                    whole = isinstance(st, ast.Assign) and len(st.targets) == 1 and isinstance(st.targets[0], ast.Name) and st.value is c
+                    if strip_sites(fa.term_of(v2)) == ("index", ct, 1) or (whole and isinstance(v2, ast.Subscript) and isinstance(v2.value, ast.Name) and v2.value.id == st.targets[0].id and isinstance(v2.slice, ast.Constant) and v2.slice.value == 1 and sum(1 for x in own_nodes(fd) if isinstance(x, ast.Name) and x.id == v2.value.id and isinstance(x.ctx, ast.Store)) == 1):
+                        ok_thread = True
         run.check(ok_thread, "C07.R2", fd, st, "the reduced keyword list replaces the current one", "the keyword list returned by _find_keyword is not threaded through the loop: a keyword used for a slot stays in the call")
     lits = [c for c in calls_in(fd) if isinstance(c.func, ast.Name) and c.func.id == "as_literal"]
     run.check(len(lits) == 1 and ast.unparse(lits[0].args[0]).endswith(".default"), "C07.R2", fd, fd.node, "missing slot with a default gets as_literal(param.default)", "defaults are not filled with as_literal(param.default)")
@@ -262,7 +271,10 @@ def check(run: Run) -> None:
         if "node" in kw:
             nt = strip_sites(fp.term_of(kw["node"]))
             fx = Facts(fp, c)
-            raw_ok = nt == pm_node and any(isinstance(a, ast.Compare) and "len(return_results)" in ast.unparse(a) and pol for a, pol in fx.atoms)
+            from ..lib import known_empty
+
+            res_lists = {x.func.value.id for x in calls_in(pm) if isinstance(x.func, ast.Attribute) and x.func.attr == "append" and isinstance(x.func.value, ast.Name) and any(y is c for a_ in x.args for y in ast.walk(a_))}
+            raw_ok = nt == pm_node and any(known_empty(fx.atoms, nm) is True for nm in res_lists)
             run.check(nt == filled or raw_ok, "C07.R2", pm, stmt_of(c), "candidate results carry the normalised call (the raw call only when no definition was found)", f"a candidate result carries {show(nt)[:60]} instead of the normalised call")
 
     pf = m.find_func("process_function_call", in_module=mod)
